@@ -45,6 +45,8 @@ class Ctx:
         self.only = None  # tuple of rule id prefixes this property includes (None = all)
 
     def _on(self, rid):
+        if any(rid == p or rid.startswith(p) for p in getattr(self, "only_skip", ())):
+            return False
         return self.only is None or any(rid == p or rid.startswith(p) for p in self.only)
 
     # ---- bookkeeping
